@@ -80,8 +80,8 @@ Section Proofs.
                end; auto.
     - (* FKDE *)
       destruct (truthy ss); simpl.
-      + destruct (jv_nat ss); simpl; auto.
-        destruct (kde_check (d_n X) false bw w); simpl; auto.
+      + destruct (kde_check (d_n X) false bw w); simpl; auto.
+        destruct (jv_nat ss); simpl; auto.
         unfold kde_get_model; simpl.
         match goal with |- context [kde_build ?a ?b ?c] => destruct (kde_build a b c) end; simpl; auto.
       + unfold kde_get_model; simpl.
@@ -109,8 +109,8 @@ Section Proofs.
                  | |- context [let '(_, _) := ?x in _] => destruct x; simpl
                  end; auto.
       + destruct (truthy ss); simpl.
-        * destruct (jv_nat ss); simpl; auto.
-          destruct (kde_check (d_n X) false bw w); simpl; auto.
+        * destruct (kde_check (d_n X) false bw w); simpl; auto.
+          destruct (jv_nat ss); simpl; auto.
           unfold kde_get_model; simpl.
           match goal with |- context [kde_build ?a ?b ?c] => destruct (kde_build a b c) end; simpl; auto.
         * unfold kde_get_model; simpl.
@@ -231,8 +231,8 @@ Section Proofs.
           try discriminate; intros; repeat split; auto; discriminate.
       + (* FKDE *)
         destruct (truthy ss2) eqn:Hss.
-        * destruct (jv_nat ss2); [|simpl; discriminate].
-          destruct (kde_check (d_n X) false bw2 w2); [simpl; discriminate|].
+        * destruct (kde_check (d_n X) false bw2 w2); [simpl; discriminate|].
+          destruct (jv_nat ss2); [|simpl; discriminate].
           cbv beta iota delta [kde_get_model set_params s_params lookup String.eqb Ascii.eqb Bool.eqb s_ss s_bw s_w set_ss].
           match goal with |- context [kde_build ?a ?b ?c] => destruct (kde_build a b c) end;
             simpl; [intros; repeat split; auto | discriminate].
@@ -267,8 +267,8 @@ Section Proofs.
                | |- context [o_tg_opt ?a ?b ?c] => destruct (o_tg_opt a b c); simpl
                end; reflexivity.
       + rewrite H.
-        destruct (jv_nat ss); [|reflexivity].
         destruct (kde_check (d_n X) false bw w); [reflexivity|].
+        destruct (jv_nat ss); [|reflexivity].
         cbv beta iota delta [kde_get_model set_params s_params lookup String.eqb Ascii.eqb Bool.eqb s_ss s_bw s_w set_ss].
         rewrite H.
         match goal with |- context [kde_build ?a ?b ?c] => destruct (kde_build a b c) end; reflexivity.
@@ -432,11 +432,12 @@ Section Proofs.
   Proof.
     intros u X g. unfold fit_wrapper.
     destruct (truthy (u_sel_ss u) && jlt_nat (u_sel_ss u) (d_n X)).
-    - destruct (jv_nat (u_sel_ss u)); [|reflexivity].
+    - destruct (choice_size (u_sel_ss u)) as [n|]; [|reflexivity].
       destruct (match o_select _ _ with Some i => nth_error (u_cands u) i | None => None end); [|reflexivity].
       destruct (get_instance_cand c); [|reflexivity].
       destruct (fit a X _) as [[s1 g2] [e|]]; reflexivity.
-    - destruct (match o_select _ _ with Some i => nth_error (u_cands u) i | None => None end); [|reflexivity].
+    - destruct (truthy (u_sel_ss u) && lt_raises (u_sel_ss u)); [reflexivity|].
+      destruct (match o_select _ _ with Some i => nth_error (u_cands u) i | None => None end); [|reflexivity].
       destruct (get_instance_cand c); [|reflexivity].
       destruct (fit a X _) as [[s1 g2] [e|]]; reflexivity.
   Qed.
@@ -451,11 +452,12 @@ Section Proofs.
         by (inversion H; repeat split; reflexivity).
     unfold er, fit_wrapper; simpl.
     destruct (truthy ss2 && jlt_nat ss2 (d_n X)).
-    - destruct (jv_nat ss2); [|discriminate].
+    - destruct (choice_size ss2) as [n|]; [|discriminate].
       destruct (match o_select _ _ with Some i => nth_error c2 i | None => None end); [|discriminate].
       destruct (get_instance_cand c); [|discriminate].
       destruct (fit a X _) as [[s1 g2] [e|]]; [discriminate|reflexivity].
-    - destruct (match o_select _ _ with Some i => nth_error c2 i | None => None end); [|discriminate].
+    - destruct (truthy ss2 && lt_raises ss2); [discriminate|].
+      destruct (match o_select _ _ with Some i => nth_error c2 i | None => None end); [|discriminate].
       destruct (get_instance_cand c); [|discriminate].
       destruct (fit a X _) as [[s1 g2] [e|]]; [discriminate|reflexivity].
   Qed.
@@ -749,8 +751,8 @@ Section Proofs.
                | |- context [o_tg_opt ?a ?b ?c] => destruct (o_tg_opt a b c); simpl
                end; reflexivity.
       + destruct (truthy ss).
-        * destruct (jv_nat ss); [|reflexivity].
-          destruct (kde_check (d_n X) false bw w); [reflexivity|].
+        * destruct (kde_check (d_n X) false bw w); [reflexivity|].
+          destruct (jv_nat ss); [|reflexivity].
           cbv beta iota delta [kde_get_model set_params s_params lookup String.eqb Ascii.eqb Bool.eqb s_ss s_bw s_w set_ss].
           match goal with |- context [kde_build ?a ?b ?c] => destruct (kde_build a b c) end; reflexivity.
         * cbv beta iota delta [kde_get_model set_params s_params lookup String.eqb Ascii.eqb Bool.eqb s_ss s_bw s_w set_ss].
@@ -1027,8 +1029,8 @@ Section Proofs.
                end; try discriminate;
         intros _; repeat split; auto; eexists; (split; [reflexivity|]); intros H; discriminate.
       + destruct (truthy ss).
-        * destruct (jv_nat ss); [|simpl; discriminate].
-          destruct (kde_check (d_n X) false bw w); [simpl; discriminate|].
+        * destruct (kde_check (d_n X) false bw w); [simpl; discriminate|].
+          destruct (jv_nat ss); [|simpl; discriminate].
           cbv beta iota delta [kde_get_model set_params s_params lookup String.eqb Ascii.eqb Bool.eqb s_ss s_bw s_w set_ss].
           match goal with |- context [kde_build ?a ?b ?c] => destruct (kde_build a b c) eqn:K end;
             simpl; [|discriminate].
@@ -1177,7 +1179,7 @@ Section Proofs.
   Proof.
     intros u X g. unfold er, fit_wrapper.
     destruct (truthy (u_sel_ss u) && jlt_nat (u_sel_ss u) (d_n X)).
-    - destruct (jv_nat (u_sel_ss u)); [|discriminate].
+    - destruct (choice_size (u_sel_ss u)) as [n|]; [|discriminate].
       destruct (match o_select _ _ with Some i => nth_error (u_cands u) i | None => None end); [|discriminate].
       destruct (get_instance_cand c); [|discriminate].
       destruct (fit a X _) as [[s1 g2] [e|]] eqn:E; [discriminate|].
@@ -1185,7 +1187,8 @@ Section Proofs.
       assert (He : er (fit a X (mkDraw (JStr "choice") n :: g)) = None) by (rewrite E; reflexivity).
       destruct (fit_success_shape _ _ _ He) as (F & _ & p & P & _).
       rewrite E in F, P. simpl in F, P. split; auto. exists p; auto.
-    - destruct (match o_select _ _ with Some i => nth_error (u_cands u) i | None => None end); [|discriminate].
+    - destruct (truthy (u_sel_ss u) && lt_raises (u_sel_ss u)); [discriminate|].
+      destruct (match o_select _ _ with Some i => nth_error (u_cands u) i | None => None end); [|discriminate].
       destruct (get_instance_cand c); [|discriminate].
       destruct (fit a X _) as [[s1 g2] [e|]] eqn:E; [discriminate|].
       intros _. simpl. split; auto. exists s1. split; auto.
@@ -1458,8 +1461,8 @@ Section Proofs.
                end; try discriminate;
         intros _ H; inversion H; subst; simpl; rewrite !json_safe_jdiv; reflexivity.
       + destruct (truthy ss).
-        * destruct (jv_nat ss); [|simpl; discriminate].
-          destruct (kde_check (d_n X) false bw w); [simpl; discriminate|].
+        * destruct (kde_check (d_n X) false bw w); [simpl; discriminate|].
+          destruct (jv_nat ss); [|simpl; discriminate].
           cbv beta iota delta [kde_get_model set_params s_params lookup String.eqb Ascii.eqb Bool.eqb s_ss s_bw s_w set_ss].
           match goal with |- context [kde_build ?a ?b ?c] => destruct (kde_build a b c) eqn:K end;
             simpl; [|discriminate].
